@@ -59,7 +59,7 @@ type instModel struct {
 }
 
 func TestPropReclaim(t *testing.T) {
-	sub := stats.NewSub("reclaim-histories", "rapid state machine on the real limiter (2 shards, local / API-backed store, 3 upstreams, 4 instance identities): ops heartbeat, report (allocate), acquire (count strategy), go silent, cleanup pass, comeback with the same identity; oracle after every pass: no condition and no in-flight count of a silent instance remains anywhere, running total == per-instance sum, everything of instances with a fresh heartbeat is unchanged; after the next survivor report the recorded sum excludes the dead instance and the freed in-flight capacity can be taken by a survivor; non-trivial = a pass reclaims >=1 instance that had state while >=1 other instance with state stays, or an instance comes back after being reclaimed; distinct by FNV-64 of the op trace")
+	sub := stats.NewSub("reclaim-histories", "rapid state machine on the real limiter (2 shards, local / API-backed store, 3 upstreams, 4 instance identities): ops heartbeat, report (allocate; one in three reports of an instance the server has no heartbeat of comes without one: the instance is on record but not alive), acquire (count strategy), go silent, cleanup pass, comeback with the same identity; oracle after every pass: no condition and no in-flight count of a silent instance remains anywhere, running total == per-instance sum, everything of instances with a fresh heartbeat is unchanged; after the next survivor report the recorded sum excludes the dead instance and the freed in-flight capacity can be taken by a survivor; non-trivial = a pass reclaims >=1 instance that had state while >=1 other instance with state stays, or an instance comes back after being reclaimed; distinct by FNV-64 of the op trace")
 	stats.Check(t, stats.N(4000, 20000), func(t *rapid.T) {
 		kind := rapid.SampledFrom([]string{"local", "k8s"}).Draw(t, "store")
 		box := limbox.New(kind, 2, "srv")
@@ -155,8 +155,17 @@ func TestPropReclaim(t *testing.T) {
 			"report": func(t *rapid.T) {
 				n := rapid.SampledFrom(instances).Draw(t, "instance")
 				u := rapid.SampledFrom(upstreams).Draw(t, "upstream")
-				beat(n)
 				m := get(n)
+				if m.lastBeat.IsZero() && rapid.IntRange(0, 2).Draw(t, "withoutHeartbeat") == 0 {
+					// a report of an instance this server has no heartbeat of (its heartbeats do not reach the server, or
+					// it was reclaimed and its last report is answered late): it is on record without being alive, the
+					// next cleanup pass reclaims it
+					m.silent = true
+					trace += "NO-HEARTBEAT-"
+					sub.Class("report-of-an-instance-without-heartbeat")
+				} else {
+					beat(n)
+				}
 				cond := &proxyv1alpha1.RateLimitCondition{ObjectMeta: metav1.ObjectMeta{Name: limbox.ConditionName(u, n)}}
 				cond.Spec.UpstreamCluster = u
 				cond.Spec.Instance = n
